@@ -334,7 +334,12 @@ def check_pseudo_def(x, P, NFFT, method, kw, kwtag):
     real = bool(np.isrealobj(x))
     with Tap() as tap:
         psd, S = eigen(x, P, NFFT=NFFT, method=method, **kw)
-    ns = int(tap.nsig)
+    if tap.nsig is None:
+        if 'NSIG' not in kw or kw['NSIG'] is None:
+            return None                       # the chosen dimension cannot be observed on this tree (reported as a broken correspondence)
+        ns = int(kw['NSIG'])
+    else:
+        ns = int(tap.nsig)
     ref, S0, gap = pseudo_reference(x, P, ns, NFFT, method)
     ref_music = ref if method == 'music' else pseudo_reference(x, P, ns, NFFT, 'music')[0]
     if gap < 1e-3:
@@ -603,6 +608,11 @@ def run(ctx):
             return Sv
         with Tap(override if floor_mode else None) as tap:
             psd, S = eigen(x, P, NFFT=NFFT, method=m, **kw)
+            if tap.nsig is None:
+                if not any('_get_signal_space' in b.get('theorem', '') for b in ctx.broken):
+                    ctx.broken.append({'theorem': 'correspondence: decisions (eigen() no longer calls _get_signal_space: the chosen NSIG cannot be observed)',
+                                       'where': 'eigenfre.eigen', 'log': ''})
+                continue
             ns = int(tap.nsig); S1 = tap.S; Vh1 = tap.Vh; fb1 = tap.fb
             p = (pmusic if m == 'music' else pev)(x, P, NFFT=NFFT, sampling=sampling, scale_by_freq=sbf, **kw); p()
             S2 = tap.S; Vh2 = tap.Vh
